@@ -1,14 +1,14 @@
 import AlphaG.Lemmas.CrcOrbitDef
 /-
-Segments 4..7 of the orbit of POLY under the zero-input map: each is one kernel
-evaluation of 32800 register steps (`decide +kernel`; no `native_decide`). The junction states
+Segments 4..7 of the orbit of 1 under the zero-input map: each is one kernel
+evaluation of 32800 register steps (`decide +kernel`). The junction states
 are literals checked by the kernel (generated once with a script; a wrong literal fails).
 -/
 namespace AlphaG.Crc
 
-theorem orbit_seg4 : walk 1418059046 32800 = some 2120823395 := by decide +kernel
-theorem orbit_seg5 : walk 2120823395 32800 = some 2143152941 := by decide +kernel
-theorem orbit_seg6 : walk 2143152941 32800 = some 1758133272 := by decide +kernel
-theorem orbit_seg7 : walk 1758133272 32800 = some 1356097871 := by decide +kernel
+theorem orbit_seg4 : walk 2836118092 32800 = some 4241646790 := by decide +kernel
+theorem orbit_seg5 : walk 4241646790 32800 = some 4286305882 := by decide +kernel
+theorem orbit_seg6 : walk 4286305882 32800 = some 3516266544 := by decide +kernel
+theorem orbit_seg7 : walk 3516266544 32800 = some 2712195742 := by decide +kernel
 
 end AlphaG.Crc
